@@ -49,6 +49,7 @@ type Input struct {
 	Algs    []string          `json:"algs,omitempty"`
 	RunDir  bool              `json:"run_dir,omitempty"`
 	Params  map[string]string `json:"params,omitempty"`
+	File2   []byte            `json:"file2,omitempty"` // nulltwin: the reference document ({} / [] in place of null)
 	// DeadlineMs shortens the deadline for inputs that are expected to hang on unrepaired code (so that a
 	// hang costs seconds, not the full 10 s per call)
 	DeadlineMs int `json:"deadline_ms,omitempty"`
@@ -60,6 +61,9 @@ func (in *Input) summary() *Input {
 	if len(in.File) > 300 {
 		c.Elided = fmt.Sprintf("file: %d bytes, first 48: %q", len(in.File), string(in.File[:48]))
 		c.File = nil
+	}
+	if len(in.File2) > 300 {
+		c.File2 = nil
 	}
 	if in.Dir != nil {
 		var names []string
@@ -212,6 +216,10 @@ func execute(in *Input) Result {
 		return execRecord(r, in)
 	case "envelope":
 		return execEnvelope(r, in)
+	case "certcheck":
+		return execCertCheck(r, in)
+	case "nulltwin":
+		return execNullTwin(r, in)
 	}
 	r.call("unknown entry "+in.Entry, func() error { return fmt.Errorf("unknown entry") })
 	return r.finish(ERR)
